@@ -260,6 +260,13 @@ def run(ctx):
     # leading zero BITS of the program (5-bit regrouping): first byte 00, 07 (five zero bits), 08, 0f
     hs += [("%02x" % b + "%038x" % r.getrandbits(152), "%02x" % b + "%062x" % r.getrandbits(248)) for b in (0x00, 0x07, 0x08, 0x0f, 0x10)]
     hs += [("%040x" % r.getrandbits(160), "%064x" % r.getrandbits(256)) for _ in range(8 if ctx.thorough else 3)]
+    # hashes (found by search) whose Base58Check address contains an ALIGNED group of four zero digits ("1111"), inner or
+    # least significant - the boundary class of a radix conversion that works on groups of digits
+    zg = ["179ce2c4d9144f0923758f80ef6d52562388047b", "c8e462ec113f72cf73fe705fb914514184944c91", "b7e49df8efe0e30c15e3dbfe30c954ca30ba613d",
+          "d74aabb4ea691d7be4e1991f50c8366496f68370", "9f9e3a1295c6efc09614e5e0c73653632fffb42b", "1ed485ef8aa5c25423c000b264b956addc845001",
+          "e3a9f9fe36ce4d4054a68af9bbb04cb3058cb860"]
+    assert "1111" in enc.b58check_encode(b"\x00" + bytes.fromhex(zg[0])) and "1111" in enc.b58check_encode(b"\xc4" + bytes.fromhex(zg[6]))
+    hs += [(h, "%064x" % r.getrandbits(256)) for h in zg]
     ctx.product("script-templates-and-helpers", [{"k": "scripts", "h20": a, "h32": b} for a, b in hs], execute, parallel=False)
     cases = [{"k": "hash", "L": L, "pat": p, "salt": ctx.seed % 251} for L in range(0, 1025) for p in PATTERNS]
     if ctx.thorough:
